@@ -15,7 +15,7 @@ import math
 
 try:
     import z3
-    from .values import Sym, SChar, SSeq, SSet, Choice, I, R, B, AI, AR, AB
+    from .values import Sym, SChar, SSeq, SSet, ASet, SDict, Choice, I, R, B, AI, AR, AB
     from . import ops
     from .ops import LAM
     HAVE_Z3 = True
@@ -63,7 +63,7 @@ def memo(f):
 
 
 def _sym(*vs):
-    return HAVE_Z3 and any(isinstance(v, (Sym, SChar, SSeq, SSet, Choice)) or (HAVE_Z3 and z3.is_expr(v)) for v in vs)
+    return HAVE_Z3 and any(isinstance(v, (Sym, SChar, SSeq, SSet, ASet, SDict, Choice)) or (HAVE_Z3 and z3.is_expr(v)) for v in vs)
 
 
 def _bound():
@@ -96,6 +96,33 @@ def define(name, argkinds, retkind):
             return Sym(decl(*zs), retkind)
         g.__name__ = name
         g.body = f
+        return g
+    return deco
+
+
+def define_over(name, nctx, argkinds, retkind):
+    """like `define`, for spec functions whose first `nctx` arguments are sequences: one uninterpreted symbol per
+    (function, identity of those sequences), applied to the remaining scalar arguments"""
+    def deco(f):
+        if not HAVE_Z3:
+            return f
+        srt = {'int': I, 'real': R, 'bool': B}
+
+        def g(*a):
+            ctx, sc = a[:nctx], a[nctx:]
+            if not _sym(*a):
+                return f(*a)
+            try:
+                key = name + '!' + '_'.join(str(_key(c)[1:]) for c in ctx)
+            except TypeError:
+                return f(*a)
+            if key not in DEFS:
+                decl = z3.Function(key, *([srt[k] for k in argkinds] + [srt[retkind]]))
+                DEFS[key] = (decl, (lambda ctx_: (lambda *s_: f(*(ctx_ + s_))))(ctx), argkinds, retkind, ctx)
+            decl = DEFS[key][0]
+            zs = [ops.z3int(x) if k == 'int' else (ops.z3real(x) if k == 'real' else ops.z3bool(x)) for x, k in zip(sc, argkinds)]
+            return Sym(decl(*zs), retkind)
+        g.__name__ = name
         return g
     return deco
 
@@ -369,7 +396,7 @@ def mkseq(f, n, ek='real'):
     return SSeq(LAM(j, body), 0, ops.z3int(n), 'list', ek)
 
 
-NAMES = dict(put=put, as_seq=as_seq, define=define, memo=memo, rmax=rmax, rep=rep, cat=cat, mkseq=mkseq, mkset=mkset, forall_char=forall_char, isum=isum, rsum=rsum, cnt=cnt, ite=ite, implies=implies, iff=iff, And=And, Or=Or, Not=Not,
+NAMES = dict(define_over=define_over, put=put, as_seq=as_seq, define=define, memo=memo, rmax=rmax, rep=rep, cat=cat, mkseq=mkseq, mkset=mkset, forall_char=forall_char, isum=isum, rsum=rsum, cnt=cnt, ite=ite, implies=implies, iff=iff, And=And, Or=Or, Not=Not,
              forall=forall, exists=exists, length=length, isin=isin, sqrt=sqrt, pow10=pow10, logb=logb,
              absv=absv, toreal=toreal, fdiv=fdiv, maxv=maxv, minv=minv, seq_eq=seq_eq, is_none=is_none,
              the=the, Fraction=Fraction)
